@@ -79,6 +79,11 @@ def run_one(m, slot):
         return m, "NOCOMPILE", out[-1500:]
     keys = re.findall(r"^\s+%s: \[(.*?)\]" % m["property"], out, re.M)
     exp = m.get("expect", "")
+    if m.get("equivalent"):
+        # behaviour-preserving edit: the check must stay silent
+        if r.returncode == 0:
+            return m, "SILENT-OK", "behaviour-preserving edit, no alarm"
+        return m, "FALSE-ALARM", "; ".join(keys)[:300]
     if r.returncode == 1 and any(exp in k for k in keys):
         return m, "CAUGHT", "; ".join(k for k in keys if exp in k)[:200]
     if r.returncode == 1:
@@ -122,9 +127,9 @@ def main():
     finally:
         if "--keep" not in sys.argv:
             shutil.rmtree(BASE, ignore_errors=True)
-    bad = [r for r in res if r[1] in ("MISSED", "NOCOMPILE", "CAUGHT-OTHER")]
+    bad = [r for r in res if r[1] in ("MISSED", "NOCOMPILE", "CAUGHT-OTHER", "FALSE-ALARM")]
     summary = {"total": len(res), "caught": sum(1 for r in res if r[1] == "CAUGHT"),
-               "skipped": sum(1 for r in res if r[1] == "SKIPPED"), "bad": [(r[0]["id"], r[1]) for r in bad]}
+               "skipped": sum(1 for r in res if r[1] == "SKIPPED"), "silent_ok": sum(1 for r in res if r[1] == "SILENT-OK"), "bad": [(r[0]["id"], r[1]) for r in bad]}
     print(json.dumps(summary))
     return 1 if bad else 0
 
